@@ -1,6 +1,7 @@
 package main
 
 import (
+	"fmt"
 	"go/token"
 	"go/types"
 	"strings"
@@ -352,6 +353,59 @@ func checkC07(w *World, r *Report) {
 		r.undecided("C07.derive", nil, "_args_ctx", token.NoPos, "function no longer resolves")
 	}
 
+	// locks know no context: whoever waits for a lock waits as long as its holder pleases.  So nothing that can take
+	// long - a call back into the evaluator, a channel operation, a sleep - happens while a lock is held, anywhere
+	// in the library
+	r.rule("C07.lock-scope", "no mutex of the library is held across a call that can reach the evaluator, a blocking select, a channel receive or send, or time.Sleep: a second evaluation waiting for that lock cannot be cancelled")
+	nls := 0
+	for _, fn := range w.Funcs {
+		if isTestFunc(w, fn) || !libraryPkg(fnPkgPath(fn)) {
+			continue
+		}
+		li := e.locks(fn)
+		if len(li.acquires) == 0 {
+			continue
+		}
+		for _, b := range fn.Blocks {
+			for _, in := range b.Instrs {
+				held := li.before[in]
+				if len(held) == 0 {
+					continue
+				}
+				what := ""
+				switch x := in.(type) {
+				case *ssa.Select:
+					if x.Blocking {
+						what = "a blocking select"
+					}
+				case *ssa.UnOp:
+					if x.Op == token.ARROW {
+						what = "a channel receive"
+					}
+				case *ssa.Send:
+					what = "a channel send"
+				case ssa.CallInstruction:
+					if _, isDefer := in.(*ssa.Defer); isDefer {
+						continue
+					}
+					if _, isM := e.mutexOp(x.Common()); isM {
+						continue
+					}
+					if sc := x.Common().StaticCallee(); sc != nil && fnPkgPath(sc) == "time" && sc.Name() == "Sleep" {
+						what = "time.Sleep"
+					} else if bad, why := w.reachesEval(x); bad {
+						what = "a call that " + why
+					}
+				}
+				if what == "" {
+					continue
+				}
+				nls++
+				r.bad("C07.lock-scope", fn, what+" under "+held.String(), in.Pos(), "lock(s) "+held.String()+" are held across "+what+": every other evaluation that needs the lock waits for it without regard to its own context")
+			}
+		}
+	}
+	r.add("C07.lock-scope", nil, "long operations under a lock in the library", token.NoPos, "info", fmt.Sprintf("%d found", nls))
 	singleOutcomeRule(w, r, e, "C07.single-outcome")
 	// handler
 	if reg, ok := m.regions["try"]; ok {
@@ -431,7 +485,6 @@ func hasNoCtxParam(fn *ssa.Function) bool {
 	}
 	return strings.HasPrefix(fnPkgPath(fn), modPath)
 }
-
 
 // ctxDeriveRule: every context handed to an evaluating call is derived from the caller's own context.
 func ctxDeriveRule(w *World, r *Report, e *Engine, m *evalModel, rule string) int {
